@@ -1,5 +1,6 @@
 import PhysisModel.Model.CharDat
 import PhysisModel.Proofs.LeRead
+import PhysisModel.Proofs.Utf8Lossy
 /-! Helper lemmas for C09 (character presets): the model of `src/chardat.rs` against `Spec/CharDatLayout`. -/
 namespace Physis.CharDat
 open Physis.LeRead Physis.Generated
@@ -72,7 +73,7 @@ theorem resize_comment (c : Bytes) (h : c.length ≤ 163) :
   simp
 
 theorem calcChecksum_eq (p : Preset) (h : WF p) : calcChecksum p = some (checksumLoop (region p)) := by
-  obtain ⟨_, _, _, hlen, hnul⟩ := h
+  obtain ⟨_, _, _, hlen, hnul, _⟩ := h
   simp only [calcChecksum, writeString_ok _ hnul, MAX_COMMENT_LENGTH, resize_comment _ hlen, region]
   simp
 
@@ -84,7 +85,7 @@ theorem layout_eq (p : Preset) (c : UInt32) :
 
 theorem writeChar_eq_encode (p : Preset) (h : WF p) : writeChar p = some (encode p) := by
   have hc := calcChecksum_eq p h
-  obtain ⟨_, _, _, hlen, hnul⟩ := h
+  obtain ⟨_, _, _, hlen, hnul, _⟩ := h
   have e : 164 - p.comment.length = (163 - p.comment.length) + 1 := by omega
   have e2 : 164 - (p.comment.length + 1) = 163 - p.comment.length := by omega
   rw [encode, docChecksum_layout p 0 hlen, layout_eq]
@@ -113,13 +114,16 @@ theorem readCustomize_write (a : Appearance) (rest : Bytes)
     readGender _ hg, readTribe _ ht, readBool_writeBool]
 
 theorem parseChar_layout (p : Preset) (c : UInt32) (h : WF p) : parseChar (layout p c) = some p := by
-  obtain ⟨hr, hg, ht, hlen, hnul⟩ := h
+  obtain ⟨hr, hg, ht, hlen, hnul, hutf⟩ := h
+  have hlossy : Utf8Lossy.fromUtf8Lossy (p.comment ++ List.replicate (164 - p.comment.length) (0 : UInt8))
+      = p.comment ++ List.replicate (164 - p.comment.length) (0 : UInt8) :=
+    Proofs.Utf8Lossy.fromUtf8Lossy_pad _ _ hutf
   have hl : (p.comment ++ List.replicate (164 - p.comment.length) (0 : UInt8)).length = 164 := by
     simp; omega
   rw [layout_eq]
   simp only [parseChar, takeU32_magic, takeU32_put, ne_eq, not_true_eq_false, if_false, skip,
     List.drop_append_of_le_length, List.length_cons, List.length_nil, Nat.le_refl,
     List.nil_append, readCustomize_write _ _ hr hg ht, List.drop_succ_cons, List.drop_zero,
-    MAX_COMMENT_LENGTH, takeN_append _ _ 164 hl, readString, trimNul_padded _ _ hnul]
+    MAX_COMMENT_LENGTH, takeN_append _ _ 164 hl, readString, hlossy, trimNul_padded _ _ hnul]
 
 end Physis.CharDat
